@@ -80,6 +80,14 @@ def _written_keys_of(P: Program, m: FuncInfo, depth: int) -> Dict[str, Optional[
             if sm is None:
                 raise AnalysisError(f"J: super().to_jsonable() of {m.qualname} not found")
             return dict(_written_keys_of(P, sm, depth + 1))
+        # the same call spelled with the base class: Base.to_jsonable(self)
+        if isinstance(e, ast.Call) and isinstance(e.func, ast.Attribute) and e.func.attr == "to_jsonable" and isinstance(e.func.value, ast.Name) \
+                and e.func.value.id in P.classes and len(e.args) == 1 and norm(e.args[0]) == "self" and m.cls is not None \
+                and any(k.name == e.func.value.id for k in P.mro(m.cls)[1:]):
+            bm = P.find_method(P.classes[e.func.value.id], "to_jsonable")
+            if bm is None:
+                raise AnalysisError(f"J: {norm(e.func)} of {m.qualname} not found")
+            return dict(_written_keys_of(P, bm, depth + 1))
         if isinstance(e, ast.Name) and e.id in env:
             return env[e.id]
         return None
@@ -598,7 +606,7 @@ def _eq_compares_dict(P: Program, cls: ClassInfo) -> Optional[FuncInfo]:
     if m is None:
         return None
     t = norm(m.node)
-    if "self.__dict__" in t:
+    if "self.__dict__" in t or "vars(self)" in t:
         return m
     return None
 
